@@ -87,6 +87,9 @@ ANCHORS = [
     ("UPDATE_ROUTES_SYMLINKS_TO_HANDLER", "src/sync/transfer.rs", r"pub async fn update\([\s\S]*?(if source\.is_symlink \{\s*return self\.handle_symlink\(source, dest_path\)\.await;)", "flag"),
     ("CREATE_SYMLINK_REPLACES_ENTRY", "src/transport/local.rs", r"async fn create_symlink\([\s\S]*?(if let Ok\(meta\) = tokio::fs::symlink_metadata\(dest\)\.await \{\s*if !meta\.is_dir\(\) \{\s*tokio::fs::remove_file\(dest\))", "flag"),
     ("PLANNER_FORCES_UPDATE_OVER_DEST_LINK", "src/sync/mod.rs", r"(matches!\(task\.action, SyncAction::Skip \| SyncAction::Create\)\s*&& task\.source\.as_ref\(\)\.is_some_and\(\|f\| !f\.is_symlink\)\s*&& matches!\(self\.transport\.read_link\(&task\.dest_path\)\.await, Ok\(Some\(_\)\)\))", "flag"),
+    # C18: persistence mechanisms
+    ("RESUME_SAVE_CALLS_IN_ENGINE", "src/sync/mod.rs", r"pub async fn sync\(&self[\s\S]*?\n    \}\n", "count:state\\.save\\(|resume_state\\.save\\(|\\.save\\(destination\\)\\s*\\{?[^\\n]*resume"),
+    ("DIRCACHE_ROOT_KEY", "src/sync/mod.rs", r'let source_path = PathBuf::from\("([^"]*)"\);\s*!cache\.needs_rescan\(&source_path, source_mtime\)', "str"),
     ("TEMP_SUFFIX", "src/transport/local.rs", r'name\.push\("([^"]+)"\);', "str"),
 ]
 
